@@ -361,6 +361,164 @@ fn sign_or_skip(acc: &mut Acc, row: &KeyRow, comp: bool, msg: &[u8]) -> Option<(
     }
 }
 
+
+// ------------------------------------------------------------------ long messages
+
+/// Keys (indices into KEYS) of the long-message spaces.
+const LONG_KEYS: [usize; 4] = [3, 6, 1, 9];
+const MAX_LONG: usize = (1 << 22) + 64;
+
+/// Aperiodic message bytes (a periodic pattern would hide swapped, repeated or skipped blocks);
+/// the message of length l is the first l bytes.
+fn long_bytes(len: usize) -> Vec<u8> {
+    (0..len as u64).map(|i| ((i + 1).wrapping_mul(0x9E37_79B9_7F4A_7C15) >> 56) as u8).collect()
+}
+
+/// Length of cs(24) || magic || cs(l) || msg.
+fn preimage_len(l: usize) -> usize {
+    1 + MAGIC.len() + wire::cs_encode(l as u64).len() + l
+}
+
+/// Named size class of the prefixed preimage (discriminator of the long-message violation keys).
+fn size_class(l: usize) -> &'static str {
+    match preimage_len(l) {
+        0..=4096 => "le-4KiB",
+        4097..=65536 => "le-64KiB",
+        65537..=1048576 => "le-1MiB",
+        _ => "gt-1MiB",
+    }
+}
+
+/// Message lengths for which the message itself or the whole prefixed preimage is b-1, b or b+1 bytes long.
+fn around(b: usize) -> Vec<usize> {
+    (b.saturating_sub(40)..=b + 1).filter(|l| (b - 1..=b + 1).contains(l) || (b - 1..=b + 1).contains(&preimage_len(*l))).collect()
+}
+
+fn sorted(mut v: Vec<usize>) -> Vec<usize> {
+    v.sort();
+    v.dedup();
+    v
+}
+
+/// long-messages: every length 0..=130 (all SHA-256 block and padding boundaries of the first three blocks of
+/// the preimage), both sides of powers of two up to 2^17 (2^19 thorough), a few lengths in between.
+fn long_lens(tier: Tier) -> Vec<usize> {
+    let mut v: Vec<usize> = (0..=130).collect();
+    v.extend([300, 1000, 70000]);
+    let pows: &[u32] = if tier.is_thorough() { &[8, 9, 10, 11, 12, 13, 14, 15, 16, 17, 18, 19] } else { &[12, 14, 17] };
+    for p in pows {
+        v.extend(around(1usize << p));
+    }
+    if tier.is_thorough() {
+        v.extend([200_000, 300_001, 777_777]);
+    }
+    sorted(v)
+}
+
+/// huge-messages: both sides of the point where the message / the prefixed preimage crosses 2^20 (and 2^21, 3*2^19, 2^22
+/// thorough), and lengths that are no multiple of anything in between.
+fn huge_lens(tier: Tier) -> Vec<usize> {
+    let mut v = around(1 << 20);
+    v.extend([(1 << 20) + 4097, 1_500_000, (1 << 21) + 13]);
+    if tier.is_thorough() {
+        v.extend(around(1 << 21));
+        v.extend(around(3 << 19));
+        v.extend(around(1 << 22));
+        v.extend([(1 << 20) + 64, (1 << 20) + 65537, 2_500_000, (3 << 20) + 4097]);
+    }
+    sorted(v)
+}
+
+const VARIANTS: [(&str, &str); 6] = [
+    ("first-byte-flipped", "head"),
+    ("middle-byte-flipped", "middle"),
+    ("last-byte-flipped", "tail"),
+    ("last-byte-dropped", "tail"),
+    ("last-100-bytes-dropped", "tail"),
+    ("one-byte-appended", "tail"),
+];
+
+/// The i-th altered message, None when it does not exist for this length or equals another variant.
+fn variant(msg: &[u8], i: usize) -> Option<Vec<u8>> {
+    let n = msg.len();
+    let mut m = msg.to_vec();
+    match i {
+        0 if n >= 2 => m[0] ^= 0x01,
+        1 if n >= 3 => m[n / 2] ^= 0x10,
+        2 if n >= 1 => m[n - 1] ^= 0x80,
+        3 if n >= 1 => m.truncate(n - 1),
+        4 if n >= 101 => m.truncate(n - 100),
+        5 => m.push(0x00),
+        _ => return None,
+    }
+    Some(m)
+}
+
+/// One (key, form, length, signer) case of the long-message spaces: the signed digest is the independently
+/// computed one, the library accepts its own signature, and it rejects the signature for every altered message
+/// that the reference rejects.
+fn long_case(case: &Case, acc: &mut Acc, row: &KeyRow, comp: bool, msg: &[u8], signer: u64) {
+    acc.evaluations += 1;
+    let class = size_class(msg.len());
+    let input = || json!({"key": row.hex, "compressed": comp, "message": hx(msg), "message_len": msg.len(), "preimage_len": preimage_len(msg.len()), "message_bytes": "byte i = ((i+1) * 0x9E3779B97F4A7C15 mod 2^64) >> 56", "signer": signer_name(signer), "prefix": 0});
+    let mut v = V { acc, case, input: &input };
+    v.acc.transitions += 1;
+    let sig = match lib_sign(row, comp, msg, signer) {
+        Ok(Ok(s)) => s,
+        Ok(Err(e)) => {
+            v.acc.outcome(b"sign-err");
+            v.bad(&format!("{}/preimage={}/kind=spurious-error", signer_key(signer), class), e);
+            return;
+        }
+        Err(p) => {
+            v.acc.outcome(b"sign-panic");
+            v.bad(&format!("{}/preimage={}/kind=panic@{}", signer_key(signer), class, panic_site(&p)), p);
+            return;
+        }
+    };
+    v.acc.nontrivial_structural += 1;
+    let (r32, s32) = (sig.r(), sig.s());
+    let (r, s) = (secp::from_be(&r32), secp::from_be(&s32));
+    let z32 = bsm_digest(msg);
+    let z = secp::from_be(&z32);
+    v.acc.traces += 1;
+    let digest_ok = secp::verify(&row.q, &z, &r, &s);
+    v.acc.outcome(&[b'D', digest_ok as u8]);
+    if !digest_ok {
+        v.bad(
+            &format!("{}/signed-digest/preimage={}/kind=wrong-result", signer_key(signer), class),
+            format!("(r={}, s={}) does not verify under the signer's key for sha256d(cs(24)||magic||cs({})||msg) = {} (preimage of {} bytes)", hx(&r32), hx(&s32), msg.len(), hx(&z32), preimage_len(msg.len())),
+        );
+    }
+    v.acc.transitions += 1;
+    let cb = match guard(|| sig.to_compact_bytes(None)) {
+        Ok(b) if b.len() == 65 => b,
+        _ => {
+            // reported by the positive space
+            v.acc.bump("long_case_no_compact_bytes", 1);
+            return;
+        }
+    };
+    let Some(addr) = lib_address(v.acc, row, comp, 0x00) else { return };
+    let h160 = &row.h160[comp as usize];
+    // own signature, own address
+    v.acc.traces += 1;
+    let own = verify4(v.acc, msg, &sig, &addr);
+    let what = format!("message of {} bytes, address {}", msg.len(), b58::address_encode(0x00, h160));
+    let d = v.settle(&own, &what);
+    v.acc.outcome(&[b'P', d.map(|x| x as u8).unwrap_or(2)]);
+    if d == Some(false) && ref_accepts(&cb, &z, h160) {
+        v.bad(&format!("verify/prefix=mainnet/preimage={}/kind=spurious-error", class), format!("{}: own signature rejected: {:?}", what, own[0]));
+    }
+    // altered messages
+    for (i, (name, region)) in VARIANTS.iter().enumerate() {
+        let Some(other) = variant(msg, i) else { continue };
+        let z2 = secp::from_be(&bsm_digest(&other));
+        let ref_ok = ref_accepts(&cb, &z2, h160);
+        expect_reject(&mut v, &format!("other-message/region={}/preimage={}", region, class), &format!("{} ({} -> {} bytes)", name, msg.len(), other.len()), &other, &sig, &addr, ref_ok, true);
+    }
+}
+
 pub fn spaces(tier: Tier) -> Vec<Space> {
     let mut v = vec![];
     let nk: u64 = if tier.is_thorough() { 12 } else { 8 };
@@ -490,12 +648,31 @@ pub fn spaces(tier: Tier) -> Vec<Space> {
             expect_reject(&mut vv, &format!("corrupted-signature/part={}", part), &format!("bit {} ({}) of the compact signature flipped", bit, part), &NEG_MSG, &sig2, &addr, ref_ok, true);
         }));
     }
+    // 5./6. long and huge messages: key x form x length x signer; inside: digest, own verification, 6 altered messages x 4 entry points
+    {
+        let big = Arc::new(long_bytes(MAX_LONG));
+        let nkl: u64 = if tier.is_thorough() { 4 } else { 2 };
+        for (name, lens, nk, nsig) in [("long-messages", long_lens(tier), nkl, 2u64), ("huge-messages", huge_lens(tier), nkl, 2u64)] {
+            let rows = rows.clone();
+            let big = big.clone();
+            let nl = lens.len() as u64;
+            v.push(Space::new(name, nk * 2 * nl * nsig, move |case, acc| {
+                let c = coords(case.idx, &[nk, 2, nl, nsig]);
+                let row = &rows[LONG_KEYS[c[0] as usize]];
+                let msg = &big[..lens[c[2] as usize]];
+                if case.idx % 397 == 5 {
+                    acc.sample(case.idx / 397, || json!({"space": name, "idx": case.idx, "key": row.hex, "compressed": c[1] == 1, "message_len": msg.len(), "preimage_len": preimage_len(msg.len()), "signer": signer_name(c[3]), "altered": VARIANTS.iter().map(|x| x.0).collect::<Vec<_>>()}));
+                }
+                long_case(case, acc, row, c[1] == 1, msg, c[3]);
+            }));
+        }
+    }
     v
 }
 
 fn run(ctx: &Ctx) -> Report {
     let mut r = Report::new(
-        "full products: (positive) keys x {compressed, uncompressed} x 17 messages (9 lengths across the 253 and 65536 length-prefix boundaries x 2 patterns) x signers (sign_message, sign_message_with_k per nonce), each checked against the reference verifier on the independently computed digest, for compression marker and recovery id, and verified under 4 address prefixes x {direct, after from_compact_bytes(to_compact_bytes(None))} x 4 verification entry points; (neg-message) all 16 single-bit flips of a 2-byte message and the message one byte longer; (neg-address) every other (key, form) address; (neg-sigbits) all 520 single-bit flips of the compact signature. Expected outcome of every negative case is computed by reference recovery + HASH160 + verification. Non-trivial = a signature was produced and its verification verdict compared; distinct by construction.",
+        "full products: (positive) keys x {compressed, uncompressed} x 17 messages (9 lengths across the 253 and 65536 length-prefix boundaries x 2 patterns) x signers (sign_message, sign_message_with_k per nonce), each checked against the reference verifier on the independently computed digest, for compression marker and recovery id, and verified under 4 address prefixes x {direct, after from_compact_bytes(to_compact_bytes(None))} x 4 verification entry points; (neg-message) all 16 single-bit flips of a 2-byte message and the message one byte longer; (neg-address) every other (key, form) address; (neg-sigbits) all 520 single-bit flips of the compact signature; (long-messages, huge-messages) keys x {compressed, uncompressed} x message lengths x signers with aperiodic message bytes: every length 0..=130, both sides (b-1, b, b+1 for the message and for the whole prefixed preimage) of the powers of two b = 2^12, 2^14, 2^17, 2^20 (thorough: every power from 2^8 to 2^22 and 3*2^19) and lengths in between up to 2^21+13 (thorough 2^22+1): the signature verifies under the reference on the independently computed digest, is accepted by the 4 entry points for the signer's mainnet address, and is rejected for 6 altered messages (first/middle/last byte flipped, last byte dropped, last 100 bytes dropped, one byte appended) unless the reference accepts. Expected outcome of every negative case is computed by reference recovery + HASH160 + verification. Non-trivial = a signature was produced and its verification verdict compared; distinct by construction.",
     );
     let tier = ctx.tier;
     let nk = if tier.is_thorough() { 12 } else { 8 };
@@ -510,10 +687,18 @@ fn run(ctx: &Ctx) -> Report {
         "neg_sigbits_keys": if tier.is_thorough() { 8 } else { 4 },
         "neg_prefixes": ["0x00", "0x6f"],
         "deviation_bound": 1,
+        "long_keys": LONG_KEYS[..if tier.is_thorough() { 4 } else { 2 }].iter().map(|i| KEYS[*i]).collect::<Vec<_>>(),
+        "long_message_lengths": long_lens(tier),
+        "huge_message_lengths": huge_lens(tier),
+        "long_signers": {"long-messages": [signer_name(0), signer_name(1)], "huge-messages": [signer_name(0), signer_name(1)]},
+        "long_message_bytes": "byte i = ((i+1) * 0x9E3779B97F4A7C15 mod 2^64) >> 56",
+        "long_altered_messages": VARIANTS.iter().map(|x| x.0).collect::<Vec<_>>(),
+        "long_prefix": "0x00",
     });
     r.assumptions.push("the four verification entry points must agree; Ok(false) and Err both count as rejection".into());
     r.assumptions.push("an address of the same key in the other compression form is not an address 'derived from any other key': acceptance there is counted, not judged".into());
     r.assumptions.push("a corrupted compact signature that panics in Signature::from_compact_bytes (header byte < 27) counts as rejected here; the panic is C09's subject (counter panics_left_to_C09)".into());
+    r.assumptions.push("long-messages / huge-messages verify under the mainnet prefix only (prefix handling does not depend on the message; it is covered by the positive space)".into());
     r.assumptions.push("negative cases in which the reference itself accepts (never observed) are not judged".into());
     run_spaces(ctx, &mut r, spaces(tier));
     r
